@@ -24,7 +24,20 @@ def jobs_for(pid, tier):
 
 
 def known_jobs_for(pid, tier, known):
-    return []
+    """For every OPEN known finding of this property: a job restricted TO the finding's region. It
+    must still show the violation (then the KNOWN-FINDING line is printed); the ordinary jobs run with
+    the region excluded and must hold."""
+    out = []
+    for k in known:
+        if k.get("property") != pid or k.get("status") != "open":
+            continue
+        d = {"VP_MAXEV": 1, "VP_EXTRA": 0, "VP_EINTR": 0, "VP_KF_REGION": 1}
+        d.update(k.get("defines", {}))
+        out.append((Job(k["harness"], variant="known-" + k["key"], defines=d, unwind=20,
+                        params={"nfd": 18, "retry": 2, "input_max": 3}, cbmc_flags=["--slice-formula"],
+                        timeout=1200, solvers=("minisat", "cadical"),
+                        bounds={"region": k.get("region")}), k))
+    return out
 
 
 COMMON_ASSUME = [
@@ -416,9 +429,10 @@ def drain_job(tier, mode, errmode):
     return Job("h_drain", variant="%s-err%d-S%d" % ("drain" if mode == 0 else "run", errmode, S),
                defines={"VP_MODE": mode, "VP_S": S, "VP_ERRMODE": errmode, "VP_IO": 1, "VP_MAXEV": S + 1,
                         "VP_NFD": 16, "VP_NOFD": 16, "VP_LOG": 6},
-               unwind=18, params={"nfd": 16, "retry": 3, "input_max": 0},
+               unwind=18, params={"nfd": 16, "retry": 3, "input_max": 0, "drain_iters": S + 4},
                cbmc_flags=["--slice-formula"], timeout=2400, solvers=("cadical", "kissat"),
-               bounds={"child_io_actions": S, "sink_calls_logged": 8, "pipe_capacity_bytes": 2})
+               bounds={"child_io_actions": S, "sink_calls_logged": 8, "pipe_capacity_bytes": 2,
+                       "drain_loop_iterations": S + 3})
 
 
 prop("C16", units=["reproc/src/drain.c (reproc_drain, sink_string, reproc_sink_string, reproc_free)",
